@@ -43,7 +43,8 @@ def sa_type(fam, args):
     raise AssertionError(n)
 
 
-_TYPE_RE = re.compile(r"^([A-Z]+)(?:\((\d+(?:, ?\d+)*)\))?$")
+# a collation is decoration (kept out of the Coq encoding): SQLite does not reflect it and the comparison must not see it
+_TYPE_RE = re.compile(r"^([A-Z]+)(?:\((\d+(?:, ?\d+)*)\))?(?: COLLATE \"NOCASE\")?$")
 
 
 def abs_type(type_obj, dialect):
@@ -114,13 +115,17 @@ def build_metadata(schema):
     md = sa.MetaData()
     for t in schema:
         args = []
+        collate = (t.get("deco") or {}).get("collate", [])
         for c in t["cols"]:
             n, fam, a, nl, pk, d = c[:6]
             kw = {"nullable": bool(nl)} if col_null_set(c) else {}
+            ty = sa_type(fam, a)
+            if n in collate and FAMS[fam] in ("VARCHAR", "TEXT"):      # decoration: a string column with a collation
+                ty = sa.String(*a, collation="NOCASE") if FAMS[fam] == "VARCHAR" else sa.Text(collation="NOCASE")
             if d is not None and d[0] == "comp":
-                args.append(sa.Column(cn(n), sa_type(fam, a), sa_default(d), primary_key=bool(pk), **kw))
+                args.append(sa.Column(cn(n), ty, sa_default(d), primary_key=bool(pk), **kw))
             else:
-                args.append(sa.Column(cn(n), sa_type(fam, a), primary_key=bool(pk), server_default=sa_default(d), **kw))
+                args.append(sa.Column(cn(n), ty, primary_key=bool(pk), server_default=sa_default(d), **kw))
         for k in t["cons"]:
             if k[0] == "uq":
                 args.append(sa.UniqueConstraint(*[cn(c) for c in k[2]], name=kn(k[1])))
@@ -212,18 +217,24 @@ def canon_existing_default(sd):
     return d
 
 
-def abs_fk_of_constraint(el):
+def _fk_specs(el):
+    """[(table code, column)] of the referred columns; the target may be schema-qualified (schema.table.column)"""
     specs = [e._get_colspec().split(".") for e in el.elements]
-    if any(len(sp) != 2 for sp in specs) or len({sp[0] for sp in specs}) != 1:
+    if any(len(sp) not in (2, 3) for sp in specs) or len({tuple(sp[:-1]) for sp in specs}) != 1:
         raise AssertionError("unexpected foreign key target %r" % (specs,))
-    return [0 if el.name is None else un(el.name, "f"), [un(k, "c") for k in el.column_keys], un(specs[0][0], "t"), [un(sp[1], "c") for sp in specs],
+    return [(tcode(sp[-2], sp[0] if len(sp) == 3 else None), un(sp[-1], "c")) for sp in specs]
+
+
+def abs_fk_of_constraint(el):
+    specs = _fk_specs(el)
+    return [0 if el.name is None else un(el.name, "f"), [un(k, "c") for k in el.column_keys], specs[0][0], [sp[1] for sp in specs],
             [el.onupdate, el.ondelete, el.deferrable, el.initially], el.name is not None]
 
 
 def abs_fk_of_constraint_any(el):
     """like abs_fk_of_constraint, name may be anything (None for an unnamed reflected key)"""
-    specs = [e._get_colspec().split(".") for e in el.elements]
-    return [el.name, [un(k, "c") for k in el.column_keys], un(specs[0][0], "t"), [un(sp[1], "c") for sp in specs]]
+    specs = _fk_specs(el)
+    return [el.name, [un(k, "c") for k in el.column_keys], specs[0][0], [sp[1] for sp in specs]]
 
 
 def _colnames(cols):
@@ -730,8 +741,8 @@ def types_match(f1, f2):
     return f1 == f2 or (f1 in (5, 6) and f2 in (5, 6))
 
 
-def gen_mutation(rnd, A, kind):
-    """a mutation of the given kind applicable to A such that m(A) is well formed, or None"""
+def gen_mutation(rnd, A, kind, tname=None):
+    """a mutation of the given kind applicable to A such that m(A) is well formed, or None (tname: on that table)"""
     used_k = {k[1] for t in A for k in t["cons"]}
     if kind == "add_table":
         free = [n for n in range(6) if n not in [t["name"] for t in A]]
@@ -746,7 +757,9 @@ def gen_mutation(rnd, A, kind):
         free = [t for t in A if not any(f[2] == t["name"] for o in A if o is not t for f in o["fks"])]
         if not free: return None
         return [kind, rnd.choice(free)["name"]]
-    t = rnd.choice(A)
+    pool = [x for x in A if tname is None or x["name"] == tname]
+    if not pool: return None
+    t = rnd.choice(pool)
     nonpk = [c for c in t["cols"] if not c[4]]
     if kind == "add_column":
         n = max(c[0] for c in t["cols"]) + 1 + rnd.randint(0, 1)
@@ -850,6 +863,121 @@ def apply_mutation(A, m):
     return B
 
 
+# ---- several changes at once (Spec/C07.v: stages, seq_ok)
+def mut_target(m):
+    k = m[0]
+    if k == "add_table": return ("t", m[1]["name"])
+    if k == "drop_table": return ("t", m[1])
+    if k == "add_column": return ("c", m[1], m[2][0])
+    if k in ("drop_column", "flip_nullable", "change_type", "change_default"): return ("c", m[1], m[2])
+    if k in ("add_cons", "change_cons"): return ("k", m[1], m[2][1])
+    if k == "drop_cons": return ("k", m[1], m[2])
+    if k == "add_fk": return ("f", m[1], m[2][0])
+    if k == "drop_fk": return ("f", m[1], m[2])
+    raise AssertionError(k)
+
+
+def _inside(t):
+    n = t["name"]
+    return [("t", n)] + [("c", n, c[0]) for c in t["cols"]] + [("k", n, k[1]) for k in t["cons"]] + [("f", n, f[0]) for f in t["fks"]]
+
+
+def mut_touches(A, m):
+    if m[0] == "add_table": return _inside(m[1])
+    if m[0] == "drop_table":
+        tb = [t for t in A if t["name"] == m[1]]
+        return _inside(tb[0]) if tb else [("t", m[1])]
+    return [mut_target(m)]
+
+
+_ALTER = {"flip_nullable": 0, "change_type": 1, "change_default": 2}
+
+
+def _indep2(x, y):
+    (Ax, mx), (Ay, my) = x, y
+    if {mx[0], my[0]} == {"add_fk", "drop_fk"} and mx[1] == my[1]: return False
+    for a, b in ((mx, my), (my, mx)):      # a change to a table the list adds / removes is part of that addition / removal
+        if a[0] in ("add_table", "drop_table") and mut_target(a)[1] == mut_target(b)[1]: return False
+    if mx[0] in _ALTER and my[0] in _ALTER:
+        if mx[0] != my[0] and mut_target(mx) == mut_target(my): return True
+    return mut_target(mx) not in mut_touches(Ay, my) and mut_target(my) not in mut_touches(Ax, mx)
+
+
+def seq_ok(A, ms):
+    """mirrors Spec/C07.v seq_ok up to applicability (which the generators guarantee stage by stage)"""
+    st = []
+    for m in ms:
+        st.append((A, m))
+        A = apply_mutation(A, m)
+    return all(_indep2(st[i], st[j]) for i in range(len(st)) for j in range(i + 1, len(st)))
+
+
+def apply_mutations(A, ms):
+    for m in ms:
+        A = apply_mutation(A, m)
+    return A
+
+
+_TABLE_KINDS = ["add_column", "drop_column", "flip_nullable", "change_type", "change_default", "add_cons", "drop_cons", "change_cons",
+                "add_fk", "drop_fk"]
+
+
+def gen_mut_seq(rnd, A, shape):
+    """a list of >= 2 non-interfering catalogue mutations, each applicable where it is applied, or None
+    shapes: same_table (2-4 changes inside one table; half of them contain a removed column together with at least as many
+    added ones), drop_target (a table removed together with every foreign key that pointed at it from tables that stay),
+    add_target (a table added together with a foreign key to it from a table that was there), mixed (anything)"""
+    import copy
+    ms, cur = [], copy.deepcopy(A)
+
+    def push(m):
+        nonlocal cur
+        if m is None: return False
+        if not seq_ok(A, ms + [m]): return False
+        ms.append(m)
+        cur = apply_mutation(cur, m)
+        return True
+
+    if shape == "same_table":
+        t = rnd.choice(A)["name"]
+        if rnd.random() < 0.5:
+            if not push(gen_mutation(rnd, cur, "drop_column", t)): return None
+            for _ in range(rnd.randint(1, 2)):
+                push(gen_mutation(rnd, cur, "add_column", t))
+        for _ in range(rnd.randint(1, 3)):
+            push(gen_mutation(rnd, cur, rnd.choice(_TABLE_KINDS), t))
+    elif shape == "drop_target":
+        cands = [t["name"] for t in A if any(f[2] == t["name"] for o in A if o is not t for f in o["fks"])]
+        if not cands: return None
+        n = rnd.choice(cands)
+        for o in A:
+            if o["name"] != n:
+                for f in o["fks"]:
+                    if f[2] == n and not push(["drop_fk", o["name"], f[0]]): return None
+        if not push(["drop_table", n]): return None
+        for _ in range(rnd.randint(0, 2)):
+            push(gen_mutation(rnd, cur, rnd.choice(_TABLE_KINDS)))
+    elif shape == "add_target":
+        free = [n for n in range(6) if n not in [t["name"] for t in A]]
+        if not free: return None
+        n = rnd.choice(free)
+        t = gen_table(rnd, n, n * 10)
+        used_k = {k[1] for x in A for k in x["cons"]}
+        t["cons"] = [k for k in t["cons"] if k[1] not in used_k]
+        if not push(["add_table", t]): return None
+        s = rnd.choice(A)
+        free = [x for x in range(s["name"] * 10, s["name"] * 10 + 10) if x not in [f[0] for f in s["fks"]]]
+        src = [c[0] for c in s["cols"] if not any(c[0] in f[1] for f in s["fks"])]
+        if not free or not src: return None
+        if not push(["add_fk", s["name"], [rnd.choice(free), [rnd.choice(src)], n, [0], gen_fk_opts(rnd)]]): return None
+        for _ in range(rnd.randint(0, 2)):
+            push(gen_mutation(rnd, cur, rnd.choice(_TABLE_KINDS)))
+    else:
+        for _ in range(rnd.randint(2, 4)):
+            push(gen_mutation(rnd, cur, rnd.choice(MUT_KINDS)))
+    return ms if len(ms) >= 2 else None
+
+
 def q_mut(m):
     k = m[0]
     if k == "add_table": return "(MAddTable %s)" % q_table(m[1])
@@ -883,7 +1011,9 @@ def add_computed(rnd, S, p=0.5):
 def decorate(rnd, S, p=0.5):
     """give tables CHECK constraints and expression indexes (kept out of the Coq encoding): replaces any existing decoration"""
     for t in S:
-        t.pop("deco", None)
+        old = t.pop("deco", None) or {}
+        if old.get("collate"):
+            t["deco"] = {"collate": old["collate"]}
         if rnd.random() < p:
             cols = [c[0] for c in t["cols"] if not (c[5] is not None and c[5][0] == "comp")]
             d = {"checks": [], "eixs": []}
@@ -891,7 +1021,23 @@ def decorate(rnd, S, p=0.5):
                 d["checks"].append([t["name"] * 10 + j, "%s %s %d" % (cn(rnd.choice(cols)), rnd.choice([">", "<", "<>"]), rnd.randint(0, 9))])
             for j in range(rnd.choice([0, 1, 1, 2])):
                 d["eixs"].append([t["name"] * 10 + j, rnd.choice(["func", "text"]), rnd.choice(cols)])
+            if old.get("collate"): d["collate"] = old["collate"]
             t["deco"] = d
+
+
+def add_collations(rnd, schemas, p=0.6):
+    """give string columns a collation (String(20, collation='NOCASE')), the same columns in every schema of the list; kept out
+    of the Coq encoding like the other decoration: SQLite reflects the bare type and the comparison looks at tokens only when
+    both sides have as many"""
+    names = sorted({(t["name"], c[0]) for S_ in schemas for t in S_ for c in t["cols"] if FAMS[c[1]] in ("VARCHAR", "TEXT")})
+    chosen = {x for x in names if rnd.random() < p}
+    for S_ in schemas:
+        for t in S_:
+            cs = sorted(c for (tname, c) in chosen if tname == t["name"])
+            if cs:
+                d = dict(t.get("deco") or {})
+                d["collate"] = cs
+                t["deco"] = d
 
 
 def type_matrix(same_family_too):
